@@ -651,7 +651,7 @@ C18Case(P, sh) ==
 (* top-level message.                                                      *)
 (***************************************************************************)
 Constructs == {"kinds", "wkt", "wkt2", "int64num", "enumcustom", "enumnum", "nullable", "empty", "ts", "bytes", "oneof", "oneofflat", "flatten",
-               "flattenprefix", "unwraplist", "unwrapmap", "multiword", "int64rep", "plain", "required", "oneofplus"}
+               "flattenprefix", "unwraplist", "unwrapmap", "multiword", "int64rep", "plain", "required", "oneofplus", "explicit", "flattentwice", "bytesrules"}
 \* the annotated message A (and the helper messages it needs)
 ConstructMsgs(P, c) ==
   LET a(fs) == Msg("A", FN(P, "A"), fs)
@@ -702,6 +702,23 @@ ConstructMsgs(P, c) ==
                                    FRef("iv", "iv", 6, "message", "one", "google.protobuf.Int64Value"), FRef("st", "st", 7, "message", "one", "google.protobuf.Struct")>>)>>
        [] c = "multiword"  -> <<a(<<Ann(F("big_number", "bigNumber", 1, "int64", "one"), "int64", "NUMBER"), F("plain_text", "plainText", 2, "string", "one"),
                                    F("with2digits", "with2digits", 3, "int32", "one")>>)>>
+       \* length rules on bytes fields count bytes, in every rendering (base64 is 4 characters per 3 bytes)
+       [] c = "bytesrules" -> LET MaxL(f, n) == [f EXCEPT !.rules = [f.rules EXCEPT !.maxLen = n]]
+                                  MinL(f, n) == [f EXCEPT !.rules = [f.rules EXCEPT !.minLen = n]] IN
+                              <<a(<<MaxL(F("b", "b", 1, "bytes", "one"), 4), MinL(MaxL(Ann(F("h", "h", 2, "bytes", "one"), "bytes", "HEX"), 4), 2),
+                                   MaxL(Ann(F("u", "u", 3, "bytes", "opt"), "bytes", "BASE64URL_RAW"), 8), MaxL(F("m", "m", 4, "bytes", "opt"), 4),
+                                   F("s", "s", 5, "string", "one")>>)>>
+       \* a flattened child that itself flattens one message type twice under two prefixes
+       [] c = "flattentwice" -> <<Msg("Parties", FN(P, "Parties"), <<F("ref", "ref", 1, "string", "one"),
+                                             Ann(Ann(FRef("billing", "billing", 2, "message", "one", ch), "flatten", TRUE), "prefix", "billing_"),
+                                             Ann(Ann(FRef("shipping", "shipping", 3, "message", "one", ch), "flatten", TRUE), "prefix", "shipping_")>>),
+                                  a(<<F("k", "k", 1, "string", "one"), Ann(FRef("c", "c", 2, "message", "one", FN(P, "Parties")), "flatten", TRUE)>>)>>
+       \* every applicable annotation written out with its default value
+       [] c = "explicit"   -> LET Ex(f) == Ann(f, "explicit", TRUE) IN
+                              <<a(<<Ex(F("s", "s", 1, "string", "opt")), Ex(F("n", "n", 2, "int64", "one")), Ex(FRef("c", "c", 3, "message", "one", ch)),
+                                   Ex(FRef("e", "e", 4, "enum", "one", FN(P, "P"))), Ex(F("b", "b", 5, "bytes", "one")), Ex(FRef("t", "t", 6, "message", "one", TS)),
+                                   Ex(FMap("m", "m", 7, "int32", "string", "")), Ex(F("r", "r", 8, "string", "rep")), Ex(F("k", "k", 9, "int32", "opt")),
+                                   Ex(FRef("oc", "oc", 10, "message", "opt", ch))>>)>>
        [] c = "plain"      -> <<a(<<F("s", "s", 1, "string", "one"), F("n", "n", 2, "int64", "one"), FRef("c", "c", 3, "message", "one", ch),
                                    FRef("e", "e", 4, "enum", "one", FN(P, "P")), F("b", "b", 5, "bytes", "one"), F("f", "f", 6, "double", "one"),
                                    FMap("m", "m", 7, "int32", "string", ""), F("r", "r", 8, "bool", "rep")>>)>>
